@@ -133,6 +133,10 @@ func VerifC13_Interruptions() {
 		}
 		got = append(got, m.RawData...)
 	}
+	// let the framing goroutine run to its end: a panic there (a second close
+	// of the message channel, say) is a crash of the program
+	verifQuiesce()
+	verifAssert("framing-goroutine-finished", verifLiveGoroutines() == 0)
 	verifAssert("stopped-with-the-read-error", err != nil)
 	verifAssert("no-empty-message", !empty)
 	verifAssert("every-byte-exactly-once-in-order", verifBytesEq(got, rd.supplied))
